@@ -1,6 +1,6 @@
 //! mode macros: step functions registered through the REAL `#[given]` attribute, one per way of spelling a fallible
 //! return type (the same menu as /verif/macroprobe), run through the real runner.  Prints `STEP <name> outcome=passed|failed|skipped`.
-use cucumber::{event, given, runner, Runner as _, World};
+use cucumber::{event, given, runner, then, when, Runner as _, World};
 use futures::{executor::block_on, stream, StreamExt as _};
 
 use super::parse_feature;
@@ -51,7 +51,115 @@ async fn ret_async_direct(_: &mut MW) -> Result<(), String> {
     Err("async direct".to_owned())
 }
 
+// ---- dispatch (the same functions as /verif/macroprobe; what they receive is logged)
+static ARGS: std::sync::Mutex<Vec<(String, String)>> = std::sync::Mutex::new(Vec::new());
+
+fn note(f: &str, args: String) {
+    ARGS.lock().unwrap().push((f.to_owned(), args));
+}
+
+#[then(regex = r"^then (\d+) and (\S+)$")]
+fn then_two_args(_: &mut MW, n: u64, s: String) {
+    note("then_two_args", format!("{n},{s}"));
+}
+
+#[given(regex = r"^step arg (\d+)$")]
+fn given_step_arg(_: &mut MW, n: u64, #[step] st: &cucumber::gherkin::Step) {
+    note("given_step_arg", format!("{n},{}", st.value));
+}
+
+#[when(regex = r"^async (-?\d+)$")]
+async fn when_async_arg(_: &mut MW, n: i32) -> Result<(), String> {
+    note("when_async_arg", format!("{n}"));
+    Ok(())
+}
+
+#[when("when literal (with) meta.chars?")]
+fn when_literal(_: &mut MW) {}
+
+/// `World::collection()`: every attribute-registered step is found under its own keyword only, literal attributes match the
+/// identical text only.
+fn registration() {
+    let c = MW::collection();
+    // (label, keyword, text that matches, texts that must not match)
+    let cases: [(&str, &str, &str, &[&str]); 6] = [
+        ("unit", "Given", "unit", &["unit extra", "xunit", "uni"]),
+        ("direct", "Given", "direct", &["directly"]),
+        ("when_literal", "When", "when literal (with) meta.chars?", &["when literal with meta.chars?", "when literal (with) metaXchars?", "when literal (with) meta.char"]),
+        ("then_two_args", "Then", "then 7 and seven", &["then x and seven"]),
+        ("given_step_arg", "Given", "step arg 5", &["step arg"]),
+        ("when_async_arg", "When", "async -3", &["async x"]),
+    ];
+    for (label, kw, text, never) in cases {
+        let mut wrong = vec![];
+        for k in ["Given", "When", "Then"] {
+            let feat = parse_feature(&format!("Feature: f\n  Scenario: s\n    {k} {text}\n"));
+            let found = c.find(&feat.scenarios[0].steps[0]);
+            let n = match &found { Ok(Some(_)) => 1, Ok(None) => 0, Err(e) => e.possible_matches.len() };
+            if (k == kw) != (n == 1) {
+                wrong.push(format!("{k}:{n}"));
+            }
+            if k == kw {
+                if let Ok(Some((_, _, loc, _))) = &found {
+                    if loc.map_or(true, |l| !l.path.ends_with("macros.rs")) {
+                        wrong.push("location".to_owned());
+                    }
+                }
+                for t in never {
+                    let feat = parse_feature(&format!("Feature: f\n  Scenario: s\n    {k} {t}\n"));
+                    if !matches!(c.find(&feat.scenarios[0].steps[0]), Ok(None)) {
+                        wrong.push(format!("also-matches:{}", t.replace(' ', "_")));
+                    }
+                }
+            }
+        }
+        println!("FIND {label} {}", if wrong.is_empty() { "ok".to_owned() } else { wrong.join(",") });
+    }
+}
+
+fn dispatch() {
+    let cases = [
+        ("then_two_args", "Then then 7 and seven"),
+        ("then_two_args_bad", "Then then 99999999999999999999999 and x"),
+        ("given_step_arg", "Given step arg 5"),
+        ("when_async_arg", "When async -3"),
+    ];
+    let mut text = String::from("Feature: f\n");
+    for (name, st) in cases {
+        text.push_str(&format!("  Scenario: {name}\n    {st}\n"));
+    }
+    let feat = parse_feature(&text);
+    let r = runner::Basic::<MW>::default().max_concurrent_scenarios(Some(1)).steps(MW::collection());
+    let mut s = r.run(stream::iter(vec![Ok(feat)]), runner::basic::Cli::default());
+    let mut outcomes: Vec<(String, &str)> = vec![];
+    block_on(async {
+        while let Some(ev) = s.next().await {
+            let Ok(ev) = ev else { continue };
+            if let event::Cucumber::Feature(_, event::Feature::Scenario(sc, rs)) = ev.into_inner() {
+                if let event::Scenario::Step(_, st) = rs.event {
+                    let outcome = match st {
+                        event::Step::Passed(..) => "passed",
+                        event::Step::Failed(..) => "failed",
+                        event::Step::Skipped => "skipped",
+                        _ => continue,
+                    };
+                    outcomes.push((sc.name.clone(), outcome));
+                }
+            }
+        }
+    });
+    let args = ARGS.lock().unwrap().clone();
+    for (name, outcome) in outcomes {
+        let f = name.trim_end_matches("_bad");
+        // calls are logged in scenario order: the k-th logged call of `f` belongs to the k-th scenario using it that ran it
+        let a = if outcome == "failed" { "-".to_owned() } else { args.iter().find(|(g, _)| g == f).map_or("-".to_owned(), |(_, a)| a.clone()) };
+        println!("DISPATCH {name} outcome={outcome} args={a}");
+    }
+}
+
 pub fn run() {
+    registration();
+    dispatch();
     let texts = ["unit", "direct", "std path", "io", "alias", "nested alias", "async alias", "async direct"];
     let mut text = String::from("Feature: f\n");
     for t in texts {
